@@ -39,6 +39,7 @@ def tlc_phase(ctx):
     jobs = [(c, {}) for c in design]
     jobs += [("MC_Layout_emit.cfg", {}),
              ("MC_Layout_gen.cfg", {"simulate": ntr, "depth": 60}),
+             ("MC_Layout_huge_%s.cfg" % tier, {}),
              ("MC_Layout_enum_cur_sc_%s.cfg" % tier, {}), ("MC_Layout_enum_cur_uc_%s.cfg" % tier, {}),
              ("MC_Layout_enum_gen_sc.cfg", {"simulate": nen, "depth": 8}), ("MC_Layout_enum_gen_uc.cfg", {"simulate": nen, "depth": 8})]
     w = 3 if ctx.quick else 5
@@ -101,7 +102,7 @@ def emit_cases(ctx, res):
 class Item:
     """one aggregate of a batch: rendering + which observations are made"""
 
-    def __init__(self, k, case, rng):
+    def __init__(self, k, case, rng, images=True):
         self.k, self.case = k, case
         t = case["t"]
         self.cp = L.Rendered(t, "T%d" % k, "m%d_" % k, packed=rng.choice(L.PACKED_SPELL), alignas=rng.choice(["_Alignas", "alignas"]),
@@ -114,7 +115,10 @@ class Item:
             d = self.cp.desig(nd["p"])
             if d is None:
                 continue
-            (self.plain if nd["w"] == -1 else self.bf).append((i, d))
+            if nd["w"] == -1:
+                self.plain.append((i, d))
+            elif images:            # no object (hence no bit-field image) of a type of 4 GiB and more
+                self.bf.append((i, d))
 
     def proj(self, summ):
         """comparable projection of a TLC summary"""
@@ -300,6 +304,71 @@ def flow_a_aggregates(ctx, objdir, cases):
     ctx.cov["aggregate_evaluations"] = stats["eval"]
     ctx.cov["depth_histogram"] = dict(collections.Counter(L.term_stats(it.case["t"])[0] for it in items))
     return batches
+
+
+# --------------------------------------------------------------------------------------------------
+# flow A, aggregates of 4 GiB and more (Layout.tla "huge": layouts at stretch 0 and 64 bytes, affine in between)
+HUGE_D = [2**32 - 64, 2**32, 2**33, 2**40]
+
+
+def _resolve(c):
+    """the four summaries of a Case with the `same` placeholders filled in"""
+    e0 = c["exp0"]
+    e1 = e0 if "same" in c["exp1"] else c["exp1"]
+    m0 = e0 if "same" in c["mod0"] else c["mod0"]
+    m1 = e1 if "same" in c["mod1"] else c["mod1"]
+    return {"exp0": e0, "exp1": e1, "mod0": m0, "mod1": m1}
+
+
+def _affine(a, b, steps):
+    return a + (b - a) * steps
+
+
+def _stretch_term(t, d):
+    if t["k"] == "sc":
+        return t
+    if t["k"] == "arr":
+        if t.get("st"):
+            return {"k": "arr", "of": t["of"], "n": t["n"] + d // {"char": 1, "short": 2, "long": 8}[t["of"]["n"]]}
+        return dict(t, of=_stretch_term(t["of"], d))
+    return dict(t, ms=[dict(m, t=_stretch_term(m["t"], d)) for m in t["ms"]])
+
+
+def huge_cases(vcases):
+    out = []
+    for v in vcases:
+        h = json.loads(v)
+        r0, r1 = _resolve(h["c0"]), _resolve(h["c1"])
+        for D in HUGE_D:
+            steps = D // 64
+            case = {"k": "su", "t": _stretch_term(h["t"], D), "devs0": sorted(set(h["c0"]["devs0"]) | set(h["c1"]["devs0"])),
+                    "devs1": sorted(set(h["c0"]["devs1"]) | set(h["c1"]["devs1"]))}
+            for key in r0:
+                a, b = r0[key], r1[key]
+                case[key] = {"size": _affine(a["size"], b["size"], steps), "align": a["align"],
+                             "nodes": [{"p": [_affine(x, y, steps) for x, y in zip(na["p"], nb["p"])], "off": _affine(na["off"], nb["off"], steps),
+                                        "bo": na["bo"], "w": na["w"]} for na, nb in zip(a["nodes"], b["nodes"])]}
+            out.append(case)
+    return out
+
+
+def flow_a_huge(ctx, objdir, res):
+    tier = "quick" if ctx.quick else "thorough"
+    cases = huge_cases(res["MC_Layout_huge_%s.cfg" % tier].vcases)
+    if not ctx.quick and len(cases) > 6000:
+        ctx.rng.shuffle(cases)
+        cases = cases[:6000]
+    stats = collections.Counter()
+    items = [Item(10**6 + k, c, ctx.rng, images=False) for k, c in enumerate(cases)]
+    batches = [items[i:i + BATCH] for i in range(0, len(items), BATCH)]
+    flat = [p for ps in vlib.pmap(lambda b: audit_batch(ctx, b), batches, workers=12) for p in ps]
+    if flat:
+        raise vlib.MachineryError("SPEC-AUDIT (huge types): %d disagreements between Layout.tla's affine extrapolation and gcc/clang, e.g.\n  %s" % (len(flat), "\n  ".join(flat[:10])))
+    vlib.pmap(lambda b: replay_batch(ctx, objdir, b, stats), batches, workers=12)
+    ctx.validated(len(items))
+    ctx.cov["huge_cases"] = len(items)
+    ctx.cov["huge_evaluations"] = stats["eval"]
+    ctx.sample({"source (>= 4 GiB)": items[len(items) // 2].cproc_src()[:400], "expected x86_64": items[len(items) // 2].proj(items[len(items) // 2].case["exp0"])})
 
 
 # --------------------------------------------------------------------------------------------------
@@ -612,6 +681,7 @@ def run(ctx):
     res = tlc_phase(ctx)
     cases = emit_cases(ctx, res)
     batches = flow_a_aggregates(ctx, objdir, cases)
+    flow_a_huge(ctx, objdir, res)
     flow_a_enums(ctx, objdir, res)
     unsupported_probes(ctx, objdir)
     flow_b(ctx, batches)
